@@ -110,7 +110,19 @@ def behaviour(rng, i):
             steps.append(st)
         else:
             steps.append({"op": "write", "iface": rng.choice(["mut", "mw"]), "now": now, "id": n + 1, "rot_hint": rot})
-    return {"src": "random-c16", "id": i, "kind": kind, "prefix": prefix, "suffix": suffix, "max_files": maxf, "t0": t0, "steps": steps}
+    # files left by earlier runs: some older periods, sometimes also a LATER one holding data (the clock was set back while the
+    # program was down): pruning counts them, and rotating into an existing file appends to it
+    left = []
+    if P and rng.random() < 0.35:
+        k0 = t0 // P
+        ks = sorted(rng.sample(range(max(0, k0 - 6), k0), min(k0, rng.choice([1, 2, 4]))))
+        left = [{"k": k, "ids": []} for k in ks]
+        if rng.random() < 0.5:
+            left.append({"k": k0 + rng.choice([1, 2]), "ids": [9001, 9002]})
+            rng.shuffle(left)
+    leftovers = [{"name": expected_name(kind, f["k"], prefix, suffix), "content": "".join("b%d\n" % x for x in f["ids"])} for f in left]
+    return {"src": "random-c16", "id": i, "kind": kind, "prefix": prefix, "suffix": suffix, "max_files": maxf, "t0": t0, "steps": steps,
+            "left": left, "leftovers": leftovers}
 
 
 def to_trace(behs, lines):
@@ -119,13 +131,14 @@ def to_trace(behs, lines):
     for x in lines:
         if x.get("ev") == "reset":
             b = behs[x["beh"]]
-            pend = {"ev": "reset", "beh": x["beh"], "p": PER[b["kind"]], "max_files": b["max_files"], "t0": b["t0"], "init_ok": False}
+            pend = {"ev": "reset", "beh": x["beh"], "p": PER[b["kind"]], "max_files": b["max_files"], "t0": b["t0"], "init_ok": False, "left": b.get("left", [])}
             out.append(pend)
             continue
         if x.get("ev") == "init":
             fs = x.get("files", [])
             k0 = (b["t0"] // PER[b["kind"]]) if PER[b["kind"]] else 0
-            out[-1]["init_ok"] = ("error" not in x and len(fs) == 1 and fs[0]["name"] == expected_name(b["kind"], k0, b["prefix"], b["suffix"]) and fs[0]["content"] == "")
+            mine = [f for f in fs if f["name"] == expected_name(b["kind"], k0, b["prefix"], b["suffix"])]
+            out[-1]["init_ok"] = ("error" not in x and len(fs) == 1 + len(b.get("left", [])) and len(mine) == 1 and mine[0]["content"] == "")
             continue
         if x.get("ev") != "op":
             out.append(x)
